@@ -32,9 +32,18 @@ EXTENDS WireOps
 (*                   empty namespace components ("tolerate duplicate         *)
 (*                   slashes"), while _imethodcall and the CIMObject header  *)
 (*                   keep them                                               *)
+(*   "wrap_host_first" CIMInstance.tocimxml() picks the wrapper element by    *)
+(*                   testing the host first, then the namespace (a path with *)
+(*                   a host but no namespace gives VALUE.INSTANCEWITHPATH    *)
+(*                   around a bare INSTANCENAME)                             *)
+(*   "name_host_first" tocimxml() of CIMInstanceName / CIMClassName tests    *)
+(*                   the host first: INSTANCEPATH / CLASSPATH whenever a     *)
+(*                   host is there, with the namespace components that are   *)
+(*                   there (none without a namespace or with                 *)
+(*                   ignore_namespace)                                       *)
 Pinned == {"export_path", "real_repr", "scope_any"}
 Flags == Pinned \cup {"keephost", "hdr_before_default", "minst_order",
-                      "ns_drop_empty"}
+                      "ns_drop_empty", "wrap_host_first", "name_host_first"}
 
 Arg(f, kb, pr, x) == [f |-> f, kb |-> kb, pr |-> pr, x |-> x]
 A0(f) == Arg(f, <<>>, <<>>, <<>>)
@@ -97,15 +106,100 @@ NsPathH(ns) == El("NAMESPACEPATH", <<>>, <<HostEl, NsPath(ns)>>, "none")
 
 (* ---- object names --------------------------------------------------------- *)
 KeyNames == <<"k1", "k2", "k3">>
-RefInstName ==
-  El("INSTANCENAME", <<<<"CLASSNAME", "refcls">>>>,
-     <<El("KEYBINDING", <<<<"NAME", "rk">>>>,
-          <<El("KEYVALUE", <<<<"VALUETYPE", "string">>, <<"TYPE", "string">>>>,
-               <<>>, "text")>>, "none")>>, "none")
 
 KeyVal(vt, ty) ==
   El("KEYVALUE", <<<<"VALUETYPE", vt>>>> \o OptAttr(ty # "", "TYPE", ty),
      <<>>, "text")
+
+ClassNameTree(cls) == El("CLASSNAME", <<<<"NAME", cls>>>>, <<>>, "none")
+
+(* ---- path shapes ------------------------------------------------------------ *)
+(* Everything that HAS a path (CIMInstance, CIMClass) or IS a path           *)
+(* (CIMInstanceName, CIMClassName; also as reference value in keybindings,   *)
+(* properties and method parameters) comes in one of five path shapes:       *)
+(*   none    no path at all (instances / classes only)     form "nopath"     *)
+(*   keys    the name alone (class name [+ keybindings])   forms "in" "cn"   *)
+(*   ns      + namespace                                   "in_ns" "cn_ns"   *)
+(*   host    + host but NO namespace                       "in_h" "cn_h"     *)
+(*   nshost  + namespace and host                          "in_ns_h" ...     *)
+(* DSP0203 has no element for "host without namespace": NAMESPACEPATH is     *)
+(* (HOST, LOCALNAMESPACEPATH) and LOCALNAMESPACEPATH needs NAMESPACE+, the    *)
+(* wrappers VALUE.INSTANCEWITHPATH / VALUE.OBJECTWITHLOCALPATH need           *)
+(* INSTANCEPATH / LOCALINSTANCEPATH.  pywbem therefore tests the namespace   *)
+(* FIRST and lets the host count only below a namespace: shape "host" is     *)
+(* written like shape "keys".  The arguments ignore_host / ignore_namespace  *)
+(* (names) and ignore_path (instances) reduce the shape before that.         *)
+PathShapes == {"none", "keys", "ns", "host", "nshost"}
+InstForms == {"in", "in_ns", "in_h", "in_ns_h"}
+ClassForms == {"cn", "cn_ns", "cn_h", "cn_ns_h"}
+IsInstForm(f) == f \in InstForms
+IsClassForm(f) == f \in ClassForms \cup {"str"}
+HasNs(f) == f \in {"cn_ns", "cn_ns_h", "in_ns", "in_ns_h"}
+HasHost(f) == f \in {"cn_h", "cn_ns_h", "in_h", "in_ns_h"}
+PathShapeOf(f) ==
+  IF f = "nopath" THEN "none"
+  ELSE IF HasNs(f) THEN (IF HasHost(f) THEN "nshost" ELSE "ns")
+  ELSE IF HasHost(f) THEN "host" ELSE "keys"
+
+IgnoreFlags == {"ignore_host", "ignore_namespace", "ignore_path"}
+
+(* tocimxml(ignore_host, ignore_namespace) of a CIMInstanceName /            *)
+(* CIMClassName of form f around its INSTANCENAME / CLASSNAME element `leaf` *)
+(* (ign: sequence of ignore flags; V: design variant)                        *)
+PathWrap(f, leaf, ns, ign, V) ==
+  LET useNs == HasNs(f) /\ ~Has(ign, "ignore_namespace")
+      useHost == HasHost(f) /\ ~Has(ign, "ignore_host")
+      L == IF IsInstForm(f) THEN "LOCALINSTANCEPATH" ELSE "LOCALCLASSPATH"
+      G == IF IsInstForm(f) THEN "INSTANCEPATH" ELSE "CLASSPATH" IN
+  IF "name_host_first" \in V /\ useHost
+  THEN El(G, <<>>, <<NsPathH(IF useNs THEN ns ELSE <<>>), leaf>>, "none")
+  ELSE IF ~useNs THEN leaf
+  ELSE IF ~useHost THEN El(L, <<>>, <<NsPath(ns), leaf>>, "none")
+  ELSE El(G, <<>>, <<NsPathH(ns), leaf>>, "none")
+
+(* ---- reference values -------------------------------------------------------- *)
+(* A reference value is a CIMInstanceName (k = "i": class refcls, one key rk) *)
+(* or a CIMClassName (k = "c": refcls) of path form f with namespace id ns;   *)
+(* deep # "": the key rk is itself a reference value of that shape (paths at  *)
+(* depth 2), else the string "refval".  The same shapes are used wherever a   *)
+(* reference value can stand: keybindings (k = "i" only: pywbem refuses class *)
+(* names there), reference properties, method parameters (scalar and array). *)
+RefSpec(sh) ==
+  LET R(k, f, ns, deep) == [k |-> k, f |-> f, ns |-> ns, deep |-> deep] IN
+  CASE sh \in {"ref", "refi"} -> R("i", "in", "", "")
+    [] sh = "refl"   -> R("i", "in_ns", "r", "")
+    [] sh = "refo"   -> R("i", "in_h", "", "")
+    [] sh = "refh"   -> R("i", "in_ns_h", "r", "")
+    [] sh = "refle"  -> R("i", "in_ns", "re", "")     \* boundary namespaces
+    [] sh = "reflg"  -> R("i", "in_ns", "rg", "")
+    [] sh = "refhe"  -> R("i", "in_ns_h", "re", "")
+    [] sh = "refdo"  -> R("i", "in", "", "refo")      \* paths at depth 2
+    [] sh = "refdh"  -> R("i", "in", "", "refh")
+    [] sh = "refhdo" -> R("i", "in_ns_h", "r", "refo")
+    [] sh = "refc"   -> R("c", "cn", "", "")
+    [] sh = "refcl"  -> R("c", "cn_ns", "r", "")
+    [] sh = "refco"  -> R("c", "cn_h", "", "")
+    [] sh = "refch"  -> R("c", "cn_ns_h", "r", "")
+    [] sh = "refcle" -> R("c", "cn_ns", "re", "")
+
+InstRefShapes == {"ref", "refl", "refo", "refh", "refle", "reflg", "refhe",
+                  "refdo", "refdh", "refhdo"}
+ClassRefShapes == {"refc", "refcl", "refco", "refch", "refcle"}
+RefShapes == InstRefShapes \cup ClassRefShapes
+
+RECURSIVE RefTarget(_)
+RefTarget(sh) ==
+  LET s == RefSpec(sh)
+      key == IF s.deep = "" THEN KeyVal("string", "string")
+             ELSE El("VALUE.REFERENCE", <<>>, <<RefTarget(s.deep)>>, "none")
+      leaf == IF s.k = "i"
+              THEN El("INSTANCENAME", <<<<"CLASSNAME", "refcls">>>>,
+                      <<El("KEYBINDING", <<<<"NAME", "rk">>>>, <<key>>,
+                           "none")>>, "none")
+              ELSE ClassNameTree("refcls") IN
+  PathWrap(s.f, leaf, IF s.ns = "" THEN <<>> ELSE NsTok(s.ns), <<>>, {})
+
+RefVal(sh) == El("VALUE.REFERENCE", <<>>, <<RefTarget(sh)>>, "none")
 
 KeyValTree(kind) ==
   CASE kind = "s"   -> KeyVal("string", "string")
@@ -116,24 +210,7 @@ KeyValTree(kind) ==
     [] kind = "s64" -> KeyVal("numeric", "sint64")
     [] kind = "r32" -> KeyVal("numeric", "real32")
     [] kind = "n"   -> KeyVal("numeric", "")       \* plain int / float: no TYPE
-    [] kind = "ref" -> El("VALUE.REFERENCE", <<>>, <<RefInstName>>, "none")
-    [] kind = "refl" ->
-         El("VALUE.REFERENCE", <<>>,
-            <<El("LOCALINSTANCEPATH", <<>>,
-                 <<NsPath(NsTok("r")), RefInstName>>, "none")>>, "none")
-    [] kind = "refh" ->
-         El("VALUE.REFERENCE", <<>>,
-            <<El("INSTANCEPATH", <<>>,
-                 <<NsPathH(NsTok("r")), RefInstName>>, "none")>>, "none")
-    [] kind \in {"refle", "reflg"} ->     \* boundary namespace of the value
-         El("VALUE.REFERENCE", <<>>,
-            <<El("LOCALINSTANCEPATH", <<>>,
-                 <<NsPath(NsTok(IF kind = "refle" THEN "re" ELSE "rg")),
-                   RefInstName>>, "none")>>, "none")
-    [] kind = "refhe" ->
-         El("VALUE.REFERENCE", <<>>,
-            <<El("INSTANCEPATH", <<>>,
-                 <<NsPathH(NsTok("re")), RefInstName>>, "none")>>, "none")
+    [] kind \in InstRefShapes -> RefVal(kind)
 
 InstNameTree(cls, kb) ==
   El("INSTANCENAME", <<<<"CLASSNAME", cls>>>>,
@@ -141,29 +218,18 @@ InstNameTree(cls, kb) ==
         El("KEYBINDING", <<<<"NAME", KeyNames[i]>>>>,
            <<KeyValTree(kb[i])>>, "none")], "none")
 
-ClassNameTree(cls) == El("CLASSNAME", <<<<"NAME", cls>>>>, <<>>, "none")
-
-IsInstForm(f) == f \in {"in", "in_ns", "in_ns_h"}
-IsClassForm(f) == f \in {"str", "cn", "cn_ns", "cn_ns_h"}
-HasNs(f) == f \in {"cn_ns", "cn_ns_h", "in_ns", "in_ns_h"}
-
 (* namespace of an object name / instance path that has one: flag "nse"    *)
 (* (the empty namespace) or "nsg" (empty inner component) in a.x, else the  *)
 (* plain "root/nso"                                                          *)
 ONs(a) == IF Has(a.x, "nse") THEN NsTok("oe")
           ELSE IF Has(a.x, "nsg") THEN NsTok("og") ELSE NsTok("o")
 
-(* tocimxml() of a CIMClassName / CIMInstanceName as given (with path) *)
-NameWithPath(f, cls, kb, ns) ==
-  LET leaf == IF IsInstForm(f) THEN InstNameTree(cls, kb)
-              ELSE ClassNameTree(cls) IN
-  IF f \in {"cn_ns", "in_ns"}
-  THEN El(IF IsInstForm(f) THEN "LOCALINSTANCEPATH" ELSE "LOCALCLASSPATH",
-          <<>>, <<NsPath(ns), leaf>>, "none")
-  ELSE IF f \in {"cn_ns_h", "in_ns_h"}
-  THEN El(IF IsInstForm(f) THEN "INSTANCEPATH" ELSE "CLASSPATH",
-          <<>>, <<NsPathH(ns), leaf>>, "none")
-  ELSE leaf
+(* tocimxml(ignore_host, ignore_namespace) of a CIMClassName /              *)
+(* CIMInstanceName as given (with path)                                     *)
+NameXml(f, cls, kb, ns, ign, V) ==
+  PathWrap(f, IF IsInstForm(f) THEN InstNameTree(cls, kb)
+              ELSE ClassNameTree(cls), ns, ign, V)
+NameWithPath(f, cls, kb, ns) == NameXml(f, cls, kb, ns, <<>>, {})
 
 (* ---- qualifiers ------------------------------------------------------------ *)
 QualTree(name, sh) ==
@@ -195,7 +261,7 @@ PropTree(name, sh) ==
         El("PROPERTY.ARRAY", N \o <<<<"TYPE", ty>>>> \o extra, kids, "none")
       PR(extra, kids) == El("PROPERTY.REFERENCE", N \o extra, kids, "none")
       Q1 == QualTree("q1", "q")
-      RefVal == El("VALUE.REFERENCE", <<>>, <<RefInstName>>, "none")
+      RefValI == RefVal("ref")
   IN
   CASE sh = "s"      -> P("string", <<>>, <<Val>>)
     [] sh = "snull"  -> P("string", <<>>, <<>>)
@@ -228,24 +294,17 @@ PropTree(name, sh) ==
     [] sh = "aei"    -> PA("string", <<<<"EmbeddedObject", "instance">>>>,
                            <<ValArray(<<EmbVal, EmbVal>>)>>)
     [] sh = "aq"     -> PA("string", <<>>, <<Q1, ValArray(<<Val>>)>>)
-    [] sh = "ref"    -> PR(<<>>, <<RefVal>>)
     [] sh = "refnull" -> PR(<<>>, <<>>)
-    [] sh = "refrc"  -> PR(<<<<"REFERENCECLASS", "refcls">>>>, <<RefVal>>)
+    [] sh = "refrc"  -> PR(<<<<"REFERENCECLASS", "refcls">>>>, <<RefValI>>)
     [] sh = "ref+"   -> PR(<<<<"CLASSORIGIN", "ocls">>,
-                             <<"PROPAGATED", "true">>>>, <<RefVal>>)
-    [] sh = "refc"   -> PR(<<>>, <<El("VALUE.REFERENCE", <<>>,
-                                      <<ClassNameTree("refcls")>>, "none")>>)
-    [] sh = "refq"   -> PR(<<>>, <<Q1, RefVal>>)
-    [] sh \in {"refle", "reflg"} ->      \* boundary namespace of the value
-         PR(<<>>, <<El("VALUE.REFERENCE", <<>>,
-                       <<El("LOCALINSTANCEPATH", <<>>,
-                            <<NsPath(NsTok(IF sh = "refle" THEN "re" ELSE "rg")),
-                              RefInstName>>, "none")>>, "none")>>)
+                             <<"PROPAGATED", "true">>>>, <<RefValI>>)
+    [] sh = "refq"   -> PR(<<>>, <<Q1, RefValI>>)
+    [] sh \in RefShapes -> PR(<<>>, <<RefVal(sh)>>)  \* every path shape
 
 PropShapes == {"s", "snull", "sempty", "u8", "s64", "b", "dt", "r64", "c16",
                "s+", "s-", "sq", "ei", "eo", "einull", "as", "au8", "aempty",
-               "anull", "anone", "asz", "a+", "aei", "aq", "ref", "refnull",
-               "refrc", "ref+", "refc", "refq", "refle", "reflg"}
+               "anull", "anone", "asz", "a+", "aei", "aq", "refnull",
+               "refrc", "ref+", "refq"} \cup RefShapes
 
 PropTrees(pr) == [i \in DOMAIN pr |-> PropTree(PropNames[i], pr[i])]
 
@@ -260,19 +319,22 @@ InstanceTree(a) ==
   El("INSTANCE", <<<<"CLASSNAME", "icls">>>>,
      ObjQuals(a.x) \o PropTrees(a.pr), "none")
 
-(* CIMInstance.tocimxml() honouring its path (form in a.f, keys in a.kb) *)
-InstanceWithPath(a) ==
-  LET i == InstanceTree(a) IN
-  CASE a.f = "nopath" -> i
-    [] a.f = "in" ->
-         El("VALUE.NAMEDINSTANCE", <<>>, <<InstNameTree("icls", a.kb), i>>,
-            "none")
-    [] a.f = "in_ns" ->
-         El("VALUE.OBJECTWITHLOCALPATH", <<>>,
-            <<NameWithPath("in_ns", "icls", a.kb, ONs(a)), i>>, "none")
-    [] a.f = "in_ns_h" ->
-         El("VALUE.INSTANCEWITHPATH", <<>>,
-            <<NameWithPath("in_ns_h", "icls", a.kb, ONs(a)), i>>, "none")
+(* CIMInstance.tocimxml(ignore_path) honouring its path (form in a.f, keys *)
+(* in a.kb): the wrapper follows what the path's own tocimxml() yields,     *)
+(* i.e. namespace first, host only below a namespace                         *)
+InstanceXml(a, ign, V) ==
+  LET i == InstanceTree(a)
+      w == IF "wrap_host_first" \in V
+           THEN (IF HasHost(a.f) THEN "VALUE.INSTANCEWITHPATH"
+                 ELSE IF HasNs(a.f) THEN "VALUE.OBJECTWITHLOCALPATH"
+                 ELSE "VALUE.NAMEDINSTANCE")
+           ELSE (IF ~HasNs(a.f) THEN "VALUE.NAMEDINSTANCE"
+                 ELSE IF ~HasHost(a.f) THEN "VALUE.OBJECTWITHLOCALPATH"
+                 ELSE "VALUE.INSTANCEWITHPATH") IN
+  IF a.f = "nopath" \/ Has(ign, "ignore_path") THEN i
+  ELSE El(w, <<>>, <<NameXml(a.f, "icls", a.kb, ONs(a), <<>>, V), i>>, "none")
+
+InstanceWithPath(a) == InstanceXml(a, <<>>, {})
 
 (* ---- classes ---------------------------------------------------------------- *)
 ParamTree(name, sh) ==
@@ -602,19 +664,12 @@ Refused == [emit |-> FALSE, tree |-> El("#none", <<>>, <<>>, "none"),
 (* (CIMParameter).  PARAMTYPE / EmbeddedObject as infer_type() /            *)
 (* infer_embedded_object() find them, or as the CIMParameter says.          *)
 MParNames == <<"mp1", "mp2", "mp3">>
-RefValI == El("VALUE.REFERENCE", <<>>, <<RefInstName>>, "none")
-RefValC == El("VALUE.REFERENCE", <<>>, <<ClassNameTree("refcls")>>, "none")
-RefValL == El("VALUE.REFERENCE", <<>>,
-              <<El("LOCALINSTANCEPATH", <<>>,
-                   <<NsPath(NsTok("r")), RefInstName>>, "none")>>, "none")
-RefValLNs(id) == El("VALUE.REFERENCE", <<>>,
-                    <<El("LOCALINSTANCEPATH", <<>>,
-                         <<NsPath(NsTok(id)), RefInstName>>, "none")>>, "none")
-RefValCNs(id) == El("VALUE.REFERENCE", <<>>,
-                    <<El("LOCALCLASSPATH", <<>>,
-                         <<NsPath(NsTok(id)), ClassNameTree("refcls")>>,
-                         "none")>>, "none")
-
+(* reference values as method parameters: every reference shape ("refi" =   *)
+(* "ref"), and arrays of them (instance and class names may be mixed)       *)
+MRefShapes == (RefShapes \ {"ref"}) \cup {"refi"}
+MRefArrays == ("aref" :> <<"ref", "ref">>)
+           @@ ("arefo" :> <<"refo", "refco">>)
+           @@ ("arefh" :> <<"refh", "refcl", "refdo">>)
 MParamTree(name, via, sh) ==
   LET PV(ty, eo, kids) ==
         El("PARAMVALUE",
@@ -628,12 +683,7 @@ MParamTree(name, via, sh) ==
     [] sh = "dt"   -> PV("datetime", "", <<Val>>)
     [] sh = "r64"  -> PV("real64", "", <<Val>>)
     [] sh = "c16"  -> PV("char16", "", <<Val>>)
-    [] sh = "refi" -> PV("reference", "", <<RefValI>>)
-    [] sh = "refl" -> PV("reference", "", <<RefValL>>)
-    [] sh = "refc" -> PV("reference", "", <<RefValC>>)
-    [] sh = "refle" -> PV("reference", "", <<RefValLNs("re")>>)
-    [] sh = "reflg" -> PV("reference", "", <<RefValLNs("rg")>>)
-    [] sh = "refcle" -> PV("reference", "", <<RefValCNs("re")>>)
+    [] sh \in MRefShapes -> PV("reference", "", <<RefVal(sh)>>)
     [] sh = "ei"   -> PV("string", "instance", <<Val>>)
     [] sh = "eo"   -> PV("string", "object", <<Val>>)
     [] sh = "null" -> IF via = "cp" THEN PV("string", "", <<>>)
@@ -642,14 +692,16 @@ MParamTree(name, via, sh) ==
     [] sh = "au8"  -> PV("uint8", "", <<ValArray(<<Val>>)>>)
     [] sh = "aempty" -> IF via = "cp" THEN PV("string", "", <<ValArray(<<>>)>>)
                         ELSE PV("", "", <<ValArray(<<>>)>>)
-    [] sh = "aref" -> PV("reference", "",
-                         <<El("VALUE.REFARRAY", <<>>, <<RefValI, RefValI>>,
-                              "none")>>)
+    [] sh \in DOMAIN MRefArrays ->
+         PV("reference", "",
+            <<El("VALUE.REFARRAY", <<>>,
+                 [i \in DOMAIN MRefArrays[sh] |-> RefVal(MRefArrays[sh][i])],
+                 "none")>>)
     [] sh = "aei"  -> PV("string", "instance", <<ValArray(<<Val>>)>>)
 
-MParamShapes == {"s", "sempty", "u8", "s64", "b", "dt", "r64", "c16", "refi",
-                 "refl", "refc", "refle", "reflg", "refcle", "ei", "eo", "null",
-                 "as", "au8", "aempty", "aref", "aei"}
+MParamShapes == {"s", "sempty", "u8", "s64", "b", "dt", "r64", "c16",
+                 "ei", "eo", "null", "as", "au8", "aempty", "aei"}
+                  \cup MRefShapes \cup DOMAIN MRefArrays
 
 MethodReq(c, Variant) ==
   LET tgt == c.args[1]
@@ -691,7 +743,7 @@ MethodReq(c, Variant) ==
 (* CreateInstance.                                                           *)
 ExportReq(c, Variant) ==
   LET a == c.args[1]
-      child == IF "export_path" \in Variant THEN InstanceWithPath(a)
+      child == IF "export_path" \in Variant THEN InstanceXml(a, <<>>, Variant)
                ELSE InstanceTree(a) IN
   [emit |-> TRUE,
    tree |-> Envelope(El("SIMPLEEXPREQ", <<>>,
@@ -765,9 +817,8 @@ ImplReq(c, Variant) ==
 (* at most K dimensions leave their base value (K = 2: every pair of         *)
 (* parameter values meets in some request).                                  *)
 KbShapes == {<<>>, <<"s">>, <<"c16">>, <<"dt">>, <<"b">>, <<"u8">>, <<"s64">>,
-             <<"r32">>, <<"n">>, <<"ref">>, <<"refl">>, <<"refh">>,
-             <<"refle">>, <<"reflg">>, <<"refhe">>,
-             <<"s", "u8">>, <<"n", "ref", "b">>}
+             <<"r32">>, <<"n">>, <<"s", "u8">>, <<"n", "ref", "b">>}
+              \cup {<<sh>> : sh \in InstRefShapes}
 BaseKb == <<"s">>
 
 InstContents ==
@@ -802,7 +853,7 @@ BaseOf(p) ==
 NsFlags == {"nse", "nsg"}
 
 InstNameOpts ==
-  {Arg(f, BaseKb, <<>>, <<>>) : f \in {"in_ns", "in_ns_h"}}
+  {Arg(f, BaseKb, <<>>, <<>>) : f \in InstForms \ {"in"}}
     \cup {Arg("in", kb, <<>>, <<>>) : kb \in KbShapes \ {BaseKb}}
     \cup {Arg("in_ns", <<"n", "ref", "b">>, <<>>, <<>>)}
     \cup {Arg("in_ns", BaseKb, <<>>, <<x>>) : x \in NsFlags}
@@ -814,26 +865,26 @@ OptsOf(p) ==
     [] p.k = "uint" -> IF p.r THEN {} ELSE {A0("v")}
     [] p.k = "plist" -> {A0("empty"), A0("one"), A0("two"), A0("str"),
                          A0("nullelem")}
-    [] p.k = "cn" -> ({A0(f) : f \in {"str", "cn", "cn_ns", "cn_ns_h"}}
+    [] p.k = "cn" -> ({A0(f) : f \in {"str"} \cup ClassForms}
                        \ {BaseOf(p)})
                        \cup (IF p.v = "tcls"    \* may carry the target namespace
                              THEN {Arg("cn_ns", <<>>, <<>>, <<x>>) : x \in NsFlags}
                              ELSE {})
     [] p.k = "in" -> InstNameOpts
-    [] p.k = "on" -> {A0(f) : f \in {"cn", "cn_ns", "cn_ns_h"}}
+    [] p.k = "on" -> {A0(f) : f \in ClassForms}
                        \cup InstNameOpts \cup {Arg("in", BaseKb, <<>>, <<>>)}
                        \cup {Arg("cn_ns", <<>>, <<>>, <<x>>) : x \in NsFlags}
                        \cup {Arg("cn_ns_h", <<>>, <<>>, <<"nse">>)}
     [] p.k \in {"inst", "xinst"} ->
          ({Arg("nopath", <<>>, pr, <<>>) : pr \in InstContents}
             \cup {Arg("nopath", <<>>, <<"s">>, <<q>>) : q \in {"q", "qfl"}}
-            \cup {Arg(f, BaseKb, <<"s">>, <<>>) : f \in {"in", "in_ns", "in_ns_h"}}
+            \cup {Arg(f, BaseKb, <<"s">>, <<>>) : f \in InstForms}
             \cup {Arg("in_ns", BaseKb, <<"s">>, <<x>>) : x \in NsFlags}
             \cup {Arg("in_ns", <<"n", "ref", "b">>, <<"s", "as", "ref">>, <<"q">>)})
            \ {BaseOf(p)}
     [] p.k = "minst" ->
          ({Arg("in", BaseKb, pr, <<>>) : pr \in InstContents}
-            \cup {Arg(f, BaseKb, <<"s">>, <<>>) : f \in {"in_ns", "in_ns_h"}}
+            \cup {Arg(f, BaseKb, <<"s">>, <<>>) : f \in InstForms \ {"in"}}
             \cup {Arg("in_ns", BaseKb, <<"s">>, <<x>>) : x \in NsFlags}
             \cup {Arg("in", kb, <<"s">>, <<>>) : kb \in KbShapes}
             \cup {Arg("in_ns_h", <<"n", "ref", "b">>, <<"s", "as", "ref">>, <<"q">>)})
@@ -852,6 +903,8 @@ OptsOf(p) ==
             via \in {"tuple", "kw", "cp"}, sh \in MParamShapes}
            \cup {Arg("mp", <<>>, <<"tuple", "s", "kw", "u8">>, <<>>),
                  Arg("mp", <<>>, <<"cp", "refi", "tuple", "aref", "kw", "ei">>,
+                     <<>>),
+                 Arg("mp", <<>>, <<"cp", "refch", "tuple", "arefo", "kw", "refo">>,
                      <<>>)}
 
 (* dimensions of an operation: 1..np parameters, np+1 namespace argument,   *)
@@ -893,11 +946,103 @@ CasesOfOp(op, K) ==
 
 Cases(K) == UNION {CasesOfOp(op, K) : op \in Ops}
 
+(* ---- the object case space: tocimxml() / tocimxmlstr() of CIM objects ----------------------- *)
+(* An object case is [op |-> "#obj", kind, f, kb, pr, x, ign]:                *)
+(*   kind  "iname"  CIMInstanceName(icls, keys kb) of path form f             *)
+(*         "cname"  CIMClassName(tcls) of path form f                          *)
+(*         "inst"   CIMInstance(icls, properties pr, qualifiers x) whose path  *)
+(*                  has form f ("nopath": none) and keys kb                    *)
+(*         "class"  CIMClass(ccls, properties pr, flags x) whose path          *)
+(*                  (a CIMClassName) has form f; tocimxml() ignores it         *)
+(*         "prop"   CIMProperty p1 of shape pr[1]                              *)
+(*         "param"  CIMParameter mp1 with a value of shape pr[1], written      *)
+(*                  as_value (PARAMVALUE)                                      *)
+(*   x     namespace flags "nse" / "nsg" (see ONs), qualifier shapes, "fn":    *)
+(*         written through the module function pywbem.tocimxmlstr(obj)         *)
+(*   ign   the ignore_... arguments that are True, in the order of IgnSeqs     *)
+(* ObjCases = for every kind that has or is a path: all path shapes x all      *)
+(* combinations of its ignore arguments x reference values of every shape in  *)
+(* the keybindings / properties; for every kind that contains reference       *)
+(* values: all reference shapes.                                              *)
+ObjCase(kind, f, kb, pr, x, ign) ==
+  [op |-> "#obj", kind |-> kind, f |-> f, kb |-> kb, pr |-> pr, x |-> x,
+   ign |-> ign]
+
+NameIgnSeqs == {<<>>, <<"ignore_host">>, <<"ignore_namespace">>,
+                <<"ignore_host", "ignore_namespace">>}
+InstIgnSeqs == {<<>>, <<"ignore_path">>}
+ObjKinds == {"iname", "cname", "inst", "class", "prop", "param"}
+
+(* the namespace flags make sense on forms with a namespace only *)
+NsFlagSeqs(f) == IF HasNs(f) THEN {<<>>, <<"nse">>, <<"nsg">>} ELSE {<<>>}
+ObjRefKbs == {BaseKb} \cup {<<sh>> : sh \in InstRefShapes}
+ObjRefProps == {<<"s">>} \cup {<<sh>> : sh \in RefShapes}
+
+ObjCases0 ==
+  (* names: form x ignore arguments x (namespace class | reference keys) *)
+     {ObjCase("iname", f, BaseKb, <<>>, x, ign) :
+        f \in InstForms, x \in {<<>>, <<"nse">>, <<"nsg">>, <<"fn">>},
+        ign \in NameIgnSeqs}
+  \cup {ObjCase("iname", f, kb, <<>>, <<>>, ign) :
+        f \in InstForms, kb \in ObjRefKbs \cup {<<>>, <<"n", "ref", "b">>},
+        ign \in NameIgnSeqs}
+  \cup {ObjCase("cname", f, <<>>, <<>>, x, ign) :
+        f \in ClassForms, x \in {<<>>, <<"nse">>, <<"nsg">>, <<"fn">>},
+        ign \in NameIgnSeqs}
+  (* instances: path form x ignore_path x (reference property | reference   *)
+  (* key | namespace class | qualifiers | through the module function)       *)
+  \cup {ObjCase("inst", f, BaseKb, pr, <<>>, ign) :
+        f \in InstForms \cup {"nopath"}, pr \in ObjRefProps, ign \in InstIgnSeqs}
+  \cup {ObjCase("inst", f, kb, <<"s">>, <<>>, ign) :
+        f \in InstForms, kb \in ObjRefKbs, ign \in InstIgnSeqs}
+  \cup {ObjCase("inst", f, BaseKb, <<"s">>, x, ign) :
+        f \in InstForms \cup {"nopath"},
+        x \in {<<"nse">>, <<"nsg">>, <<"fn">>, <<"q">>, <<"fn", "qfl">>},
+        ign \in InstIgnSeqs}
+  \cup {ObjCase("inst", f, <<"n", "refhdo", "b">>, <<"s", "as", "refco">>,
+                <<"q">>, ign) : f \in InstForms, ign \in InstIgnSeqs}
+  (* classes: the path is never written, whatever its form *)
+  \cup {ObjCase("class", f, <<>>, pr, x, <<>>) :
+        f \in ClassForms \cup {"nopath"},
+        pr \in {<<>>, <<"refo">>, <<"refch">>, <<"refco">>, <<"refdo">>},
+        x \in {<<>>, <<"nse">>, <<"fn">>}}
+  \cup {ObjCase("class", "cn_ns_h", <<"m", "pr", "pra">>, <<sh>>,
+                <<"super", "q">>, <<>>) : sh \in RefShapes}
+  (* single properties / parameter values: every shape *)
+  \cup {ObjCase("prop", "nopath", <<>>, <<sh>>, x, <<>>) :
+        sh \in PropShapes, x \in {<<>>, <<"fn">>}}
+  \cup {ObjCase("param", "nopath", <<>>, <<sh>>, <<>>, <<>>) :
+        sh \in MParamShapes}
+
+(* the module function has no ignore arguments *)
+ObjCases == {c \in ObjCases0 : Has(c.x, "fn") => c.ign = <<>>}
+
+(* the document tocimxmlstr() returns for an object case *)
+ObjTree(c, V) ==
+  LET a == Arg(c.f, c.kb, c.pr, c.x) IN
+  CASE c.kind = "iname" -> NameXml(c.f, "icls", c.kb, ONs(a), c.ign, V)
+    [] c.kind = "cname" -> NameXml(c.f, "tcls", <<>>, ONs(a), c.ign, V)
+    [] c.kind = "inst"  -> InstanceXml(a, c.ign, V)
+    [] c.kind = "class" -> ClassTree(a)
+    [] c.kind = "prop"  -> PropTree("p1", c.pr[1])
+    [] c.kind = "param" -> MParamTree("mp1", "cp", c.pr[1])
+
+ObjDoc(c, V) ==
+  [emit |-> TRUE, tree |-> ObjTree(c, V),
+   hdr |-> [method |-> "", form |-> "none", ns |-> <<>>, cls |-> "",
+            keys |-> <<>>]]
+
+IsObjCase(c) == c.op = "#obj"
+DocOf(c, V) == IF IsObjCase(c) THEN ObjDoc(c, V) ELSE ImplReq(c, V)
+
 (* ---- comparison of a tree from the real code with the transcription ------------------------ *)
+(* (white space in element content = pretty-printed output is not a          *)
+(* difference)                                                                *)
+SameText(x, y) == x.x = y.x \/ (x.x = "ws" /\ y.x = "none" /\ Len(x.c) > 0)
 RECURSIVE SameTree(_, _)
 SameTree(x, y) ==
   /\ x.t = y.t
-  /\ x.x = y.x
+  /\ SameText(x, y)
   /\ SeqToSet(x.a) = SeqToSet(y.a)
   /\ Len(x.a) = Len(y.a)
   /\ Len(x.c) = Len(y.c)
@@ -909,7 +1054,7 @@ DiffPath(x, y) ==
   IF x.t # y.t THEN <<x.t, "#tag", y.t>>
   ELSE IF SeqToSet(x.a) # SeqToSet(y.a) \/ Len(x.a) # Len(y.a)
   THEN <<x.t, "#attrs">>
-  ELSE IF x.x # y.x THEN <<x.t, "#text">>
+  ELSE IF ~SameText(x, y) THEN <<x.t, "#text">>
   ELSE IF Len(x.c) # Len(y.c) THEN <<x.t, "#children">>
   ELSE LET D == {i \in DOMAIN x.c : ~SameTree(x.c[i], y.c[i])} IN
        IF D = {} THEN <<>>
